@@ -206,7 +206,11 @@ func (h *h3run) writerRequest(r *u.Rng, i int) {
 	}
 	isConnect := req.Method == "CONNECT"
 	isExt := isConnect && req.Proto != "" && req.Proto != "HTTP/1.1"
-	if got.Method != req.Method || got.Host != wantHost {
+	wantMethod := req.Method
+	if wantMethod == "" { // http.Request: "For client requests, an empty string means GET."
+		wantMethod = "GET"
+	}
+	if got.Method != wantMethod || got.Host != wantHost {
 		h.monfail("h3writers/request-differs", fmt.Sprintf("method %q host %q after the round trip", got.Method, got.Host), detail)
 	}
 	if !isConnect || isExt {
@@ -341,9 +345,23 @@ func (h *h3run) writerResponse(r *u.Rng, i int) {
 				}
 			}
 		}
+		// connection-specific fields and TE values other than "trailers" must not reach the wire (RFC 9114 4.2)
 		want := lowerKeys(hdr, func(k string) bool {
-			return k == "trailer" || k == "date" || declared[k] || strings.HasPrefix(k, "trailer:")
+			return k == "trailer" || k == "date" || declared[k] || strings.HasPrefix(k, "trailer:") || rfcConnSpecific[k]
 		})
+		if te, ok := want["te"]; ok {
+			var keep []string
+			for _, v := range te {
+				if v == "trailers" {
+					keep = append(keep, v)
+				}
+			}
+			if len(keep) == 0 {
+				delete(want, "te")
+			} else {
+				want["te"] = keep
+			}
+		}
 		if cl, ok := want["content-length"]; ok && !allDigits(cl[0]) {
 			delete(want, "content-length") // documented: a malformed Content-Length is removed with a warning
 		}
@@ -417,7 +435,7 @@ func (h *h3run) writerTrailers(r *u.Rng, i int) {
 		return
 	}
 	h.dist["trailers:accepted"]++
-	want := lowerKeys(tr, func(k string) bool { return rfcNoTrailer[k] || strings.HasPrefix(k, "if-") })
+	want := lowerKeys(tr, func(k string) bool { return rfcNoTrailer[k] || rfcConnSpecific[k] || strings.HasPrefix(k, "if-") })
 	if !sameMultimap(lowerKeys(got, nil), want) {
 		h.monfail("h3writers/trailers-differ", fmt.Sprintf("trailers %q after the round trip, want %q", got, want), detail)
 	}
